@@ -853,3 +853,37 @@ func Code93Expand(s string) string {
 	}
 	return string(out)
 }
+
+// Code39CheckChar returns the modulo-43 check character of a basic-alphabet text
+// (0 if a character is outside the alphabet).
+func Code39CheckChar(text string) byte {
+	t := 0
+	for i := 0; i < len(text); i++ {
+		v := Code39Value(text[i])
+		if v < 0 {
+			return 0
+		}
+		t += v
+	}
+	return code39Alphabet[t%43]
+}
+
+// Code93CheckChars returns the check characters C and K of a text over the 47 Code 93
+// characters (the four special ones written U+00F1..U+00F4); ok is false if a rune is
+// outside that set.
+func Code93CheckChars(text string) (c, k rune, ok bool) {
+	var vals []int
+	for _, r := range text {
+		switch {
+		case r >= 0xf1 && r <= 0xf4:
+			vals = append(vals, 43+int(r-0xf1))
+		case r < 128 && Code39Value(byte(r)) >= 0:
+			vals = append(vals, Code39Value(byte(r)))
+		default:
+			return 0, 0, false
+		}
+	}
+	cv := code93Check(vals, 20)
+	kv := code93Check(append(vals, cv), 15)
+	return Code93Char(cv), Code93Char(kv), true
+}
